@@ -151,7 +151,7 @@ def run(
     """
     cwd = cwd or SPECS
     meta = tempfile.mkdtemp(prefix="tlcmeta_")
-    java_opts = [f"-Xmx{heap}", "-XX:+UseParallelGC"]
+    java_opts = [f"-Xmx{heap}", "-Xss64m", "-XX:+UseParallelGC"]
     if dfs_queue:
         java_opts.append("-Dtlc2.tool.queue.IStateQueue=StateDeque")
     cmd = ["java"] + java_opts + ["-cp", f"{JAR}:{DEPS}", "tlc2.TLC",
